@@ -6,6 +6,7 @@ package sched
 import (
 	"fmt"
 	"strings"
+	"sync/atomic"
 )
 
 // T is the handle a thread body uses to yield.
@@ -200,8 +201,10 @@ func run(sc Scenario, prefix []int, horizon int, states map[string]struct{}, pru
 		cur = order[c]
 		t := e.threads[cur]
 		e.trace = append(e.trace, fmt.Sprintf("%d:%s", cur, t.label))
+		current.Store(t)
 		t.resume <- struct{}{}
 		m := <-e.yield
+		current.Store(nil)
 		diverged := false
 		for m.choose > 0 {
 			c := 0
@@ -218,8 +221,10 @@ func run(sc Scenario, prefix []int, horizon int, states map[string]struct{}, pru
 			e.points = append(e.points, point{n: m.choose})
 			e.trace = append(e.trace, fmt.Sprintf("%d:%s=%d", cur, m.t.label, c))
 			m.t.chosen = c
+			current.Store(m.t)
 			m.t.resume <- struct{}{}
 			m = <-e.yield
+			current.Store(nil)
 		}
 		if diverged {
 			abort()
@@ -246,6 +251,13 @@ func run(sc Scenario, prefix []int, horizon int, states map[string]struct{}, pru
 }
 
 var errAbort = fmt.Errorf("sched: execution aborted")
+
+// current is the thread that holds the baton (for hooks inside instrumented code that cannot be
+// handed a *T). Only meaningful while a single exploration runs in the process.
+var current atomic.Pointer[T]
+
+// Cur returns the running scheduled thread, or nil outside an execution.
+func Cur() *T { return current.Load() }
 
 func init() {}
 
